@@ -197,6 +197,7 @@ func init() {
 		ruleGRDchancap(w, r)       // every call returns in bounded time
 		ruleORD9(w, r)             // lost updates: a snapshot does not miss an operation that is between journal and apply
 		ruleLCKcopy(w, r)          // a lock that is copied excludes nobody
+		ruleGRDrmwCallers(w, r)    // a lost update one layer up: no handler pre-merges with a stale read
 	})
 }
 
@@ -253,6 +254,7 @@ func init() {
 		ruleGRDlogarg(w, r)         // the decay factor is a number between 0 and 1, whatever count the metadata carries
 		ruleGRDlayersVerbatim(w, r) // a layer configured without decay is found under the name it was configured with
 		ruleGRDreinforceAll(w, r)   // reinforcing increases the access count by exactly one, pinned or not
+		ruleGRDrmwCallers(w, r)     // reinforcements are not overwritten by a concurrent property update
 	})
 }
 
@@ -286,6 +288,7 @@ func init() {
 		ruleEFFcreate(w, r)    // a create answered 409 leaves the index that owns the name untouched
 		ruleGRDdimension(w, r) // the wrong-dimension guard cannot be switched off by deleting one vector
 		ruleGRDlevelmult(w, r) // m = 1 in a create request must not wedge the index
+		ruleLCK7emit(w, r)     // an event fan-out that can send on a closed channel panics inside the request that emitted
 	})
 }
 
@@ -308,6 +311,7 @@ func init() {
 		ruleLCK5f(w, r, lr, func(g string) bool {
 			return strings.HasPrefix(g, "mmap.VectorArena.") || strings.HasPrefix(g, "distance.Quantizer.") || g == "hnsw.Index.activeMu"
 		})
+		ruleGRDqueryscale(w, r)      // int8 distances: the query keeps its resolution
 		ruleGRDtrainedEnsure(w, r)   // the 'is it trained' question is asked of the current quantizer on every call
 		ruleGRDquerynorm(w, r)       // an int8 cosine query is quantised in the range trained on unit-length vectors
 		ruleGRDcloseKeepsFiles(w, r) // reopen: no chunk file disappears at Close
@@ -363,5 +367,6 @@ func init() {
 		ruleGRDtombstoneStorage(w, r) // a restart re-attaches the vector of every tombstone
 		ruleGRDnoQueryShortcut(w, r)  // a stored vector is retrieved by its own value, also the zero vector
 		ruleGRDtrainedEnsure(w, r)    // a quantized index searches on trained codes: training is retried until it has succeeded
+		ruleGRDqueryscale(w, r)       // an int8 index answers like the float index it approximates, whatever the magnitude of the data
 	})
 }
